@@ -30,12 +30,20 @@ pub fn affine_str<C: CurveAffine>(p: &C::Curve) -> String
 where
     C::Base: PrimeField,
 {
-    let a: C = p.to_affine();
-    if bool::from(a.is_identity()) {
-        "inf".to_string()
-    } else {
-        let c = a.coordinates().unwrap();
-        format!("{},{}", fe_hex(c.x()), fe_hex(c.y()))
+    // a broken MSM can return coordinates that are not on the curve: never unwrap
+    match catch(|| {
+        let a: C = p.to_affine();
+        if bool::from(a.is_identity()) {
+            "inf".to_string()
+        } else {
+            match Option::<midnight_curves::Coordinates<C>>::from(a.coordinates()) {
+                Some(c) => format!("{},{}", fe_hex(c.x()), fe_hex(c.y())),
+                None => "not-on-curve".to_string(),
+            }
+        }
+    }) {
+        Ok(s) => s,
+        Err(_) => "not-on-curve".to_string(),
     }
 }
 
@@ -285,7 +293,7 @@ where
     let op = format!("msm {cname} {ename} {t} {} {nbytes} {}", big_hex(&acc0), pairs_str(case));
     let ans = match &res {
         Ok(p) => affine_str::<C>(p),
-        Err(m) => format!("panic:{}", m.chars().take(60).collect::<String>()),
+        Err(_) => "panic".to_string(),
     };
     ctx.case(&format!("msm-{cname}-{ename}"), len > 1, &op, &ans);
     ctx.count(&format!("msm-len:{}", len_class(len)));
@@ -340,7 +348,7 @@ pub fn run_bls_specific(ctx: &mut Ctx, case: &Case<midnight_curves::G1Affine>, m
     let op = format!("msm bls {which} {t} 0x0 32 {}", pairs_str(case));
     let ans = match &res {
         Ok(p) => affine_str::<G1Affine>(p),
-        Err(m) => format!("panic:{}", m.chars().take(60).collect::<String>()),
+        Err(_) => "panic".to_string(),
     };
     let _ = Fq::ONE;
     ctx.case(&format!("msm-bls-{which}"), len > 1, &op, &ans);
@@ -371,7 +379,7 @@ pub fn run_bn_specific(ctx: &mut Ctx, case: &Case<midnight_curves::bn256::G1Affi
     let op = format!("msm bn specific-best {t} 0x0 32 {}", pairs_str(case));
     let ans = match &res {
         Ok(p) => affine_str::<G1Affine>(p),
-        Err(m) => format!("panic:{}", m.chars().take(60).collect::<String>()),
+        Err(_) => "panic".to_string(),
     };
     ctx.case("msm-bn-specific-best", len > 1, &op, &ans);
     ctx.count(&format!("msm-len:{}", len_class(len)));
